@@ -426,6 +426,10 @@ func BinOp(op string, l, r Val) (Val, error) {
 			return IntV(a | b), nil
 		}
 	case "==", "!=", "<", "<=", ">", ">=":
+		if l.IsNum() && r.IsNum() && (l.K == VFloat && math.IsNaN(l.F) || r.K == VFloat && math.IsNaN(r.F)) {
+			// not a number: unordered and unequal to everything, itself included
+			return BoolV(op == "!="), nil
+		}
 		c, ok, err := Compare(l, r)
 		if err != nil {
 			return Val{}, err
@@ -564,10 +568,10 @@ func Compare(l, r Val) (c int, ok bool, err error) {
 			return 1, true, nil
 		}
 		return 0, true, nil
-	case l.K == VNil && r.K == VNil:
-		return 0, true, nil
 	case l.K == VNil || r.K == VNil:
-		return 1, false, nil // nil vs non-nil: unequal
+		// the engine's comparisons are not defined on nil (a nil pointer, a JSON null, the nil literal): the
+		// documented test is IsNil()
+		return 0, false, evalErr("comparison with nil: %s, %s", l, r)
 	}
 	return 0, false, evalErr("cannot compare %s with %s", l, r)
 }
